@@ -23,15 +23,28 @@ INSIDE = ["user", "calendars", "contacts", "cal0", "ab0", "a.ics", "c.vcf", "top
 OUTSIDE_EXISTING = ["canary/secret.txt", "canary/", "sibling-cal/", "sibling-cal/m.ics", "sibling-cal/.git/config", "canary/sub/deep.txt", "home/.gitconfig"]
 METHODS = ["GET", "HEAD", "PUT", "POST", "DELETE", "MKCOL", "MKCALENDAR", "PROPFIND0", "PROPFIND1", "PROPPATCH", "REPORT-multiget", "REPORT-sync", "REPORT-expand", "OPTIONS"]
 CANARY = "CANARY-7f3a9b-TOKEN"
+BASE_ABS = [""]   # absolute path of the directory that surrounds the data root (set per shard)
 
 
 def gen_target(rng, depth_in_root, n):
     """A request path (without route prefix). Net '..' count is bounded so
     that a successful escape stays inside the scratch base."""
-    shape = rng.choice(["up-from-root", "up-from-collection", "up-from-member", "encoded-slash", "absolute-form", "double-slash", "plain-outside-name", "long", "nul", "backslash"])
+    shape = rng.choice(["up-from-root", "up-from-collection", "up-from-member", "encoded-slash", "absolute-form", "double-slash", "plain-outside-name", "long", "nul", "backslash",
+                        "double-encoded-last-segment", "double-encoded-last-segment", "leading-slashes"])
     ups = rng.randint(1, 3)
     upseg = [rng.choice(UP) for _ in range(ups)]
     tail = rng.choice(OUTSIDE_EXISTING + ["evil-%d" % n, "evil-%d/" % n, "evil-%d/x.ics" % n, "sibling-cal/new-%d.ics" % n, "canary/new-%d.ics" % n])
+    if shape == "double-encoded-last-segment":
+        # the whole escape hides in the last segment, percent-encoded twice
+        col = rng.choice(["/user/calendars/cal0/", "/user/contacts/ab0/", "/top/"])
+        depth = col.strip("/").count("/") + 1
+        t = rng.choice(["canary/new-%d.ics" % n, "sibling-cal/new-%d.ics" % n, "canary/secret.txt", "evil-%d.ics" % n])
+        enc = rng.choice([("%252F", "%252e%252e"), ("%252F", ".."), ("%252f", ".."), ("%255C", "..")])
+        seg = (enc[1] + enc[0]) * (depth + rng.randint(0, 1)) + t.replace("/", enc[0])
+        return col + seg, shape
+    if shape == "leading-slashes":
+        k = rng.randint(2, 4)
+        return "/" * k + rng.choice(["canary/secret.txt", "canary/", "sibling-cal/m.ics", "evil-%d/" % n]).join(["", ""]) if False else "/" * k + os.path.join(BASE_ABS[0].lstrip("/"), tail), shape
     if shape == "up-from-root":
         segs = upseg + [tail]
         path = "/" + "/".join(segs)
@@ -168,6 +181,7 @@ def run_shard(args):
     reqlog = []
     w = W.World(base, fe_kind=args["fe"], prefix=args.get("prefix", "/"), seed=args["seed"], autocreate="defaults")
     w.res = res
+    BASE_ABS[0] = base
     logpath = os.path.join(top, "agent.log")
     strace_log = os.path.join(top, "strace.log")
     try:
@@ -215,7 +229,7 @@ def run_shard(args):
         w.put("/user/contacts/ab0/", "c.vcf", gen.vcard(rng, "in-root", "inside", rich=False))
         if ag is not None:
             ag.enabled = False
-        before = snapshot(top, exclude=[w.root, os.path.join(base, "tmp"), logpath, strace_log] + [os.path.join(base, f) for f in os.listdir(base) if f.endswith(".log") or f.endswith(".sock")])
+        before = snapshot(top, exclude=[w.root, os.path.join(base, "root2"), os.path.join(base, "tmp"), logpath, strace_log] + [os.path.join(base, f) for f in os.listdir(base) if f.endswith(".log") or f.endswith(".sock")])
         if ag is not None:
             arm_seq = ag.seq
             ag.enabled = True
@@ -271,14 +285,55 @@ def run_shard(args):
                 w.fe.start()
         res.count("targets_tried", tried)
         res.count("targets_reached_handler", reached)
+        phase2 = None
+        if args["fe"] == "wsgi":
+            # a second tenant: another application object with another root in the same process
+            # (multi-tenant WSGI, or an application rebuilt with a new root); it must not touch the first root
+            from vf import fe as FE
+            import xandikos.web as XW
+            root2 = os.path.join(base, "root2")
+            ag.enabled = False
+            os.makedirs(root2, exist_ok=True)
+            XW.open_store_from_path.cache_clear()
+            b2 = XW.XandikosBackend(root2)
+            b2._mark_as_principal("/user/")
+            b2.create_principal("/user/", create_defaults=True)
+            app2 = XW.XandikosApp(b2, current_user_principal="/user/")
+            seq0 = ag.seq
+            ag.enabled = True
+
+            def call2(method, target, headers=(), body=None):
+                env = FE.wsgiref_environ(method, target, list(headers), body, script_name="")
+                out = {}
+                try:
+                    chunks = b"".join(app2(env, lambda st, hs, ei=None: out.update(status=st)))
+                except Exception:
+                    return 500, b""
+                return int(out.get("status", "500 x").split(" ")[0]), chunks
+            for (m_, t_, h_, b_) in [("MKCALENDAR", "/user/calendars/cal0/", [X.XML_CT], X.mkcalendar()), ("PUT", "/user/calendars/cal0/a.ics", [("Content-Type", "text/calendar")], gen.ical(rng, "tenant2", "tenant2", rich=False)),
+                                      ("GET", "/user/calendars/cal0/a.ics", [], None), ("PROPFIND", "/user/calendars/cal0/", [("Depth", "1"), X.XML_CT], X.propfind([X.P_ETAG])),
+                                      ("PUT", "/user/contacts/ab0/c.vcf", [("Content-Type", "text/vcard")], gen.vcard(rng, "tenant2", "tenant2", rich=False)), ("DELETE", "/user/calendars/cal0/a.ics", [], None),
+                                      ("MKCOL", "/top/", [], None), ("GET", "/top/", [], None)]:
+                st_, body_ = call2(m_, t_, h_, b_)
+                res.count("second_tenant_requests")
+                if b"inside" in body_:
+                    viol("wsgi/second-tenant/served-first-tenants-data", f"{m_} {t_} on an application rooted elsewhere returned the first tenant's member")
+            ag.enabled = False
+            phase2 = (seq0, root2)
         # ---- verdicts
         w.stop()
         if ag is not None:
             ag.enabled = False
         events = load_events(logpath, arm_seq)
         res.count("audit_events", len(events))
-        judge_events(events, w.root, top, allow_read, allow_write, res, viol, args["fe"])
-        after = snapshot(top, exclude=[w.root, os.path.join(base, "tmp"), logpath, strace_log] + [os.path.join(base, f) for f in os.listdir(base) if f.endswith(".log") or f.endswith(".sock")])
+        if phase2 is not None:
+            ev1 = [e for e in events if e[0] <= phase2[0]]
+            ev2 = [e for e in events if e[0] > phase2[0]]
+            judge_events(ev1, w.root, top, allow_read, allow_write, res, viol, args["fe"])
+            judge_events(ev2, phase2[1], top, allow_read, allow_write, res, viol, "wsgi-second-tenant")
+        else:
+            judge_events(events, w.root, top, allow_read, allow_write, res, viol, args["fe"])
+        after = snapshot(top, exclude=[w.root, os.path.join(base, "root2"), os.path.join(base, "tmp"), logpath, strace_log] + [os.path.join(base, f) for f in os.listdir(base) if f.endswith(".log") or f.endswith(".sock")])
         res.count("snapshot_entries", len(before))
         for p in sorted(set(before) | set(after)):
             if before.get(p) != after.get(p):
